@@ -66,7 +66,7 @@ P = {
  "C20": ("All 76 registered tunings x 128 notes x maxfret values for find_frets and all (string, fret) cells incl. out-of-range ones for get_Note are enumerated against own open-string pitches; lookups over every instrument prefix x casing x counts; find_fingering on generated note sets against a brute-force specification (set equality + fret-sum order); find_chord_fingering results against a validity predicate; generated notes, containers, bars, tracks and compositions on the 48 non-course tunings at page widths 40-160 are rendered and decoded by an own tab reader (equal line lengths, one line per string, pitches per entry in order); unplayable entries must raise the fingering/range error.",
          "Own open-string pitch arithmetic, brute-force fingering enumeration and tab reader (vlib/ref/tabread.py); decode clause applied when every entry has room for its digits.",
          "bounded-exhaustive enumeration + Hypothesis PBT vs brute-force specification; translation validation of tablature by an independent reader"),
- "C15": ("An 839-query battery over the theory modules is answered by a cold interpreter; Hypothesis draws call histories (general and focused on one region of the battery), mutates every returned list/dict in place, then re-asks the battery (a drawn part in quick, all of it in thorough) twice and compares with the cold answers; frequency-table lookups in drawn sequences are compared with a bisect reference and a memory-less lookup; ~40 call sites taking lists/dicts are checked for argument preservation; operation scripts on one of two instances of each of 13 classes must leave the sibling, fresh instances and class defaults unchanged; copies of notes/containers are exercised in both directions.",
+ "C15": ("A 1227-query battery (every public function of the theory modules at least once, found by introspection) over the theory modules is answered by a cold interpreter; Hypothesis draws call histories (general and focused on one region of the battery), mutates every returned list/dict in place, then re-asks the battery (a drawn part in quick, all of it in thorough) twice and compares with the cold answers; frequency-table lookups in drawn sequences are compared with a bisect reference and a memory-less lookup; ~40 call sites taking lists/dicts are checked for argument preservation; operation scripts on one of two instances of each of 13 classes must leave the sibling, fresh instances and class defaults unchanged; copies of notes/containers are exercised in both directions.",
          "Cold answers come from a fresh subprocess importing the same tree; known memo tables are cleared at the start of each case so failures replay.",
          "differential against a cold interpreter over Hypothesis call histories + metamorphic argument/sibling invariance"),
 }
